@@ -20,6 +20,7 @@ var expectedMiss = map[string]string{
 	"seeded/C15-c": "cursor-based delete that removes the neighbouring fan's entry: key discipline of the store is C14's subject (C14 R-bucket / R-results report it); C15's rules concern when data is loaded and saved",
 	"seeded/C12-b": "targets the nearest-neighbour choice inside util.FindClosest, which is not decided by design (functional correctness of the search)",
 	"seeded/C04-f": "changes a numeric gain of the default PID configuration (and the README with it): whether the closed loop settles for a given gain and tick is dynamics, not decided by design",
+	"seeded/C06-h": "adds weights to the average function curve with a divisor that does not match the numerator: the average form is not decided by design (needs the relational fact total <= 255 * divisor)",
 	"seeded/C06-g": "restarts the PID loop (output 0, integral cleared) after a pause: whether a PID curve agrees with its documented function is not decided by design (only the range clause is)",
 	"seeded/C15-f": "changes the lock time-out constant of the database: how likely a load fails under contention is quantitative (timing), not decided by design",
 }
